@@ -50,7 +50,64 @@ def cancel_points(ctx):
     return out
 
 
+def unstarted(ctx):
+    """Requests that end before they ever ran: a task cancelled before its first step, `wait_for(..., timeout=0)`, a
+    coroutine object that is closed unawaited.  Nothing may stay registered, and a follow-up request for the same
+    command gets its own response."""
+    import asyncio
+    import hostworld
+    import streams
+    K = hostworld.kinds()
+    r = ctx.rng
+    for kind in "GDZ":
+        for how in ("cancel-before-first-step", "wait_for-0", "closed-unawaited"):
+            w = hostworld.HostWorld()
+            try:
+                mk, Rsp, kw = K[kind]
+                n0 = w.n_listeners()
+                async def go():
+                    # inside the running loop, like application code
+                    if how == "cancel-before-first-step":
+                        tk = asyncio.ensure_future(w.api.request(mk(1), timeout=3))
+                        tk.cancel()
+                        try:
+                            await tk
+                        except BaseException:
+                            pass
+                    elif how == "wait_for-0":
+                        try:
+                            await asyncio.wait_for(w.api.request(mk(1), timeout=3), timeout=0)
+                        except (asyncio.TimeoutError, asyncio.CancelledError):
+                            pass
+                    else:
+                        co = w.api.request(mk(1), timeout=3)
+                        if hasattr(co, "close"):
+                            co.close()
+                        del co
+                    await asyncio.sleep(0)
+                w.loop.run_until_complete(go())
+                w.loop.settle()
+                n1 = w.n_listeners()
+                # follow-up request for the same command, acknowledged and answered
+                w.start(2, mk(2), 3.0)
+                for _ in range(6):
+                    w.rx(streams.ack(getattr(w.p, "_pack_seq", 0)))
+                w.rx(hostworld.rsp_bytes(Rsp, 2, 1, **kw))
+                res = [e for e in w.log if e.startswith("D2=")]
+                ctx.case(("unstarted", kind, how), sample=dict(kind=kind, how=how, listeners_left=n1 - n0, follow_up=res))
+                ctx.count("unstarted:" + how)
+                if n1 != n0:
+                    ctx.counterexample("listener-left-by-unstarted-request", dict(kind=kind, how=how), 0, n1 - n0,
+                                       "a request that ended before its first step left a response waiter registered")
+                elif res != ["D2=RET"]:
+                    ctx.counterexample("follow-up-starved", dict(kind=kind, how=how), ["D2=RET"], res,
+                                       "the follow-up request for the same command did not receive its own response")
+            finally:
+                w.shutdown()
+
+
 def run(ctx):
+    unstarted(ctx)
     ctx.rule = ("(a) systematic: for 4 request kinds x 4 companions x 4 progress points x {cancel, expiry}: end the request, "
                 "inject a late response, issue a follow-up request for the same command and answer it; (b) random schedules "
                 "biased to cancel / expiry / close / duplicate responses; non-trivial = >= 2 requests and >= 4 event kinds")
